@@ -197,6 +197,12 @@ func mutate(base RawRequest, seed int, bodyRequired bool, scalarKeys []string, k
 		add("json-invalid-utf8", "", func(r *RawRequest) { r.Body = bytes.Replace(r.Body, []byte("\""), []byte("\"\xff\xfe"), 1) })
 	}
 	if len(base.Body) > 0 {
+		if ct := base.Header.Get("Content-Type"); strings.Contains(ct, "/") {
+			// a bare token is no media type: it matches no declared content type, wildcard or not
+			tok := ct[:strings.Index(ct, "/")]
+			add("media-type-bare-token", "400|415", func(r *RawRequest) { r.Header.Set("Content-Type", tok) })
+			add("media-type-bare-token-with-parameter", "400|415", func(r *RawRequest) { r.Header.Set("Content-Type", strings.ToUpper(tok)+"; charset=utf-8") })
+		}
 		// the same body with an unknown length (chunked upload) or an absurd declared one
 		add("content-length-unknown", "", func(r *RawRequest) { r.ContentLength = -1 })
 		add("content-length-huge", "", func(r *RawRequest) { r.ContentLength = 1 << 62 })
@@ -278,6 +284,25 @@ func mutate(base RawRequest, seed int, bodyRequired bool, scalarKeys []string, k
 		add("header-garbage:"+n, "", func(r *RawRequest) { r.Header[n] = []string{"\x00,;=%zz\"", "=", ""} })
 	}
 	add("cookie-garbage", "", func(r *RawRequest) { r.Header.Set("Cookie", "a=;=b;;c==d; e=\"x; %zz") })
+	// every cookie the valid request carries, with its value replaced by texts whose percent-escapes are
+	// broken at different places (after a valid escape, at the very end, in the middle)
+	for _, ck := range (&http.Request{Header: base.Header}).Cookies() {
+		name := ck.Name
+		for _, val := range []string{"%41%", "%41%4", "abc%2Cdef%2", "%", "%4", "%zz", "%41%zz", "%2C%2C%", "a%", "%41%41%4"} {
+			val := val
+			add("cookie-broken-escape:"+name+"="+val, "", func(r *RawRequest) {
+				var parts []string
+				for _, c := range (&http.Request{Header: base.Header}).Cookies() {
+					if c.Name == name {
+						parts = append(parts, c.Name+"="+val)
+					} else {
+						parts = append(parts, c.Name+"="+c.Value)
+					}
+				}
+				r.Header.Set("Cookie", strings.Join(parts, "; "))
+			})
+		}
+	}
 	add("huge-header", "", func(r *RawRequest) { r.Header.Set("X-Huge", strings.Repeat("a", 1<<16)) })
 	add("body-on-bodyless", "", func(r *RawRequest) {
 		if len(r.Body) == 0 {
